@@ -144,7 +144,7 @@ def _registry():
             'rule': 'scopes stream: random interleavings of declare/assign/read/block/if/else/loop/function over 3 names to depth 5; every read printed', 'assumptions': ['dynamic scoping (a callee sees its caller\'s variables) is the language\'s rule']},
     'C05': {'proofs': 'C05', 'streams': [S('calls', pstreams.c05_cases, flags='-')],
             'rule': 'calls stream: arities 0-4 x argument counts, return from nests of if/else/loop/block, 9 call sites, parameter rebinding and callee locals vs caller variables, recursion depth to 200 (thorough 400), mutual recursion', 'assumptions': ['recursion deeper than the native stack is outside the model']},
-    'C06': {'proofs': 'C06', 'streams': [S('alias', pstreams.c06_cases)],
+    'C06': {'proofs': 'C06', 'streams': [S('alias', pstreams.c06_cases), S('alias-gc', pstreams.c06_cases, sched='1')],
             'rule': 'alias stream: list/record shapes to depth 4 with aliases by assignment, call, nesting; sequences of indexed writes (valid, out of range, missing key), pushes, pops, concatenations; every container printed through every alias after each operation; final heap compared', 'assumptions': []},
     'C07': {'proofs': 'C07', 'streams': [stream_gc_heaps, stream_gc_schedules],
             'rule': 'gc-heaps: direct collector runs (hook verif_collect) on random heaps, post-state compared exactly; gc-schedules: each program under no collection, collection at every boundary, periodic and random schedules and the native trigger (hook gc_schedule): outputs compared with each other and with the model',
@@ -174,7 +174,7 @@ def _registry():
     'C15': {'proofs': 'C15', 'streams': [S('graphs', pstreams.c15_cases, flags='-')],
             'rule': 'graphs stream: import graphs on 4 files in nested directories (thorough: all 65536 edge subsets; quick: 216 sampled), shuffled import order; import statement forms (missing file, bad extension, non-literal path, truncated)',
             'assumptions': ['files are identified by path text (the implementation uses canonical paths)']},
-    'C16': {'proofs': 'C16', 'streams': [S('listops', pstreams.c16_cases)],
+    'C16': {'proofs': 'C16', 'streams': [S('listops', pstreams.c16_cases), S('listops-gc', pstreams.c16_cases, sched='1')],
             'rule': 'listops stream: operation sequences (<= 15, thorough <= 40) from the empty list through two aliases, positions {0, mid, len-1, len, len+1, -1, 0.5, huge, NaN, non-number}', 'assumptions': []},
     'C17': {'proofs': 'C17', 'streams': [S('text', pstreams.c17_cases, flags='-')],
             'rule': 'text stream: split/join on strings over {a, b, ক} with separators of length 0-3 (thorough: all |s|<=6, |sep|<=2 over 2 letters), join-then-split of lists, type names of all 7 types, wrong argument counts/types', 'assumptions': []},
@@ -286,7 +286,7 @@ import pstreams, genprog
 
 def case_line(c, sched=None, flags=None):
     return vlib.run_line(c['src'], budget=c.get('budget', 8000), sched=sched or c.get('sched', 'n'), flags=flags or c.get('flags', 'h'),
-                         extra_files=c.get('files', ()))
+                         extra_files=c.get('files', ()), main=c.get('main', 'm.pakhi'))
 
 
 def res_kind(line):
@@ -572,18 +572,36 @@ def stream_numbers(ctx):
 SEP_CHOICES = [' ', '\t', '\n', '\r\n', '  ', ' \n\t ', '']
 
 
-def needs_sep(a, b):
-    """conservative: may two adjacent token texts fuse into something else when written without a blank"""
-    ident_last = lambda t: not (ord(t[-1]) < 128 and not (t[-1].isalnum() or t[-1] in '-_/'))
-    ident_first = lambda t: not (ord(t[0]) < 128 and not (t[0].isalnum() or t[0] in '-_/'))
+OPERAND_END = lambda t: t[-1] in ')]' or t.startswith('"') or t in ('সত্য', 'মিথ্যা') or _is_number(t) or _is_ident(t)
+
+
+def _ident_char(c):
+    return c in '-_/' or not (ord(c) < 128 and not c.isalnum())
+
+
+def _is_number(t):
+    return t[0] in genprog.BN or (t[0] == '-' and len(t) > 1 and t[1] in genprog.BN)
+
+
+def _is_ident(t):
+    """lexed by the identifier scanner (identifiers and keywords)"""
+    return _ident_char(t[0]) and not _is_number(t) and t[0] not in '-/'
+
+
+def needs_sep(prev, a, b):
+    """may the adjacent token texts a b fuse into something else when written without a blank?
+    prev: the token before a (decides whether a '-' before a digit is a sign)"""
     if a.startswith('#') or b.startswith('#'): return False
     if a.startswith('"') or b.startswith('"'): return False
-    if ident_last(a) and ident_first(b): return True
+    if _is_ident(a) and _ident_char(b[0]): return True          # identifier characters continue the identifier (incl. - and /)
+    if _is_number(a) and (b[0] in genprog.BN + '.' or (ord(b[0]) < 128 and b[0].isdigit())): return True
     if a[-1] in '=!<>' and b[0] == '=': return True
-    if a[-1] == '-' and (b[0] == '>' or b[0] in genprog.BN or ident_first(b)): return True
-    if b[0] == '-': return True            # '-' after an identifier character continues the identifier; keep a blank always
-    if a[-1] in genprog.BN + '.' and b[0] == '.': return True
-    if a[-1] == '.' : return True
+    if a == '-' and b[0] == '>': return True
+    if a == '-' and b[0] in genprog.BN:
+        # "-৫": sign of a literal unless an operand precedes the '-' (then binary minus either way): same value, but
+        # "৫ - -৩" style texts keep their blank when a is itself preceded by an operator and b is a negative literal
+        return False
+    if a == '-' and b[0] == '-': return False
     return False
 
 
@@ -594,11 +612,13 @@ def layout(rng, stmts, mode):
         out.append(t)
         if i + 1 < len(toks):
             nxt = toks[i + 1]
-            if mode == 'min': sep = ' ' if needs_sep(t, nxt) else ''
+            prev = toks[i - 1] if i > 0 else ''
+            need = needs_sep(prev, t, nxt)
+            if mode == 'min': sep = ' ' if need else ''
             elif mode == 'canon': sep = ' '
             else:
                 sep = rng.choice(SEP_CHOICES)
-                if sep == '' and needs_sep(t, nxt): sep = rng.choice(SEP_CHOICES[:5])
+                if sep == '' and need: sep = rng.choice(SEP_CHOICES[:5])
             out.append(sep)
     return ''.join(out) + rng.choice(['', '\n', ' '])
 
@@ -607,7 +627,7 @@ def with_comments(rng, stmts):
     out = []
     for s in stmts:
         if rng.random() < 0.3 and s not in (['{'],) :
-            out.append([rng.choice(['# মন্তব্য #', '#\nবহু লাইন\nমন্তব্য\n#', '# এতে \\# আছে #', '##', '# দেখাও ১; #'])])
+            out.append([rng.choice(['# মন্তব্য #', '#\nবহু লাইন\nমন্তব্য\n#', '# এতে \\# আছে #', '##', '# দেখাও ১; #', '# পথ C:\\\\# দেখাও "ভিতরে"; #', '#\\\n#', '# a\\b #'])])
         out.append(s)
     return out
 
@@ -622,6 +642,7 @@ def stream_layout(ctx):
         st = [s for s in st if not s[0].startswith('#')]
         progs.append(st)
     # the documented no-blank subtraction forms
+    progs += [[['নাম', 'খ', '=', '১০', ';'], ['দেখাও', '১০', '-', '৩', ';'], ['দেখাও', 'খ', '-', '৩', ';'], ['দেখাও', '(', 'খ', ')', '-', '৩', '-', '২', ';'], ['দেখাও', '[', '১০', ']', '+', '[', '-৩', ']', ';'], ['দেখাও', '২', '*', '-', '৩', ';']]]
     progs += [[['নাম', 'ক', '=', '[', '৫', ']', ';'], ['দেখাও', '৫', '-', '১', ';'], ['দেখাও', 'ক', '[', '০', ']', '-', '১', ';'], ['দেখাও', '(', 'ক', '[', '০', ']', ')', '-', '১', ';'], ['দেখাও', '৫', '-', '-১', ';']]]
     cases = []
     for gi, st in enumerate(progs):
@@ -794,7 +815,7 @@ def stream_compose(ctx):
 # ---- C20 fs
 def stream_fs(ctx):
     raw = pstreams.c20_cases(ctx.rng, ctx.tier)
-    cases = [{'src': pstreams.prog(r['stmts']), 'kind': 'fs', 'files': [('d/pre.txt', 'আগে থেকে')] if ctx.rng.random() < 0.5 else []} for r in raw]
+    cases = [{'src': pstreams.prog(r['stmts']), 'kind': r['kind'], 'files': []} for r in raw]
     diff_programs(ctx, 'fs', cases, flags='f', nontrivial=lambda s: True)
 
 
